@@ -186,6 +186,12 @@ func c05Sub(qDepth, tDepth int) *engine.Sub {
 				}
 				ctx.States(1)
 				ctx.Nontrivial(1)
+				// read-only queries about other instants must not influence the decision taken now
+				for _, d := range toks[:n] {
+					d.IsValidAt(time.Now().Add(30 * 365 * 24 * time.Hour))
+					d.IsValidAt(time.Unix(0, 0))
+					d.IsValidNow()
+				}
 				run := func(fields []int) {
 					opts, cmd, _ := c05InvOpts(fields, links[n-1].Cmd)
 					opts = append(opts, invocation.WithArgument("x", 1), invocation.WithArgument("y", "ab"))
@@ -271,8 +277,8 @@ func C05() *engine.Check {
 			c03Sub("policy-universe-completeness", "complete"),
 			c03HookSub("args-hook-completeness", "complete"),
 			c03SeqSub("same-token-sequences-completeness", "complete"),
-			c04ChainSub("time-universe-completeness", "complete", 3, 4),
-			c04RealSub("real-clock-completeness", "complete", 3, 5),
+			c04ChainSub("time-universe-completeness", "complete", 3, 5),
+			c04RealSub("real-clock-completeness", "complete", 3, 6),
 		},
 		Assumptions: []string{
 			"the completeness direction of the C01-C04 universes is charged here: whenever the reference says no rule is violated the implementation must allow",
